@@ -189,6 +189,13 @@ def step (st : St) (args : List String) : St × String :=
            s!"{w}:{if b then "b" else "s"}:{tx}:{vout}")) ++ "\t" ++
          joinSorted ((Spec.Pending.pendingDeposits (specEnv st) st.specPend).map (fun d =>
            s!"{d.1}:{if d.2.1.cls.isBinding then "b" else "s"}:{d.2.2.2.id}:{d.2.2.1}")))
+  | ["glog"] =>
+    -- raw dump of the mined deposit-history bucket; spec: the deposits of the chain (MW.Props.C10.deposit_once)
+    (st, joinSorted (st.store.game.map (fun e =>
+           let g := e.1
+           s!"{g.wallet}:{if g.binding then "b" else "s"}:{if g.withdrawn then "w" else "u"}:{g.tx}:{g.vout}:{g.height}")) ++ "\t" ++
+         joinSorted (st.wallets.flatMap (fun w => (Spec.Chain.deposits st.own st.specChain w).map (fun d =>
+           s!"{w}:{if d.cls.isBinding then "b" else "s"}:{if d.withdrawn then "w" else "u"}:{d.tx}:{d.idx}:{d.height}"))))
   | ["addrs", w] =>
     if !st.wallets.contains w then (st, "err\terr") else
     let mine := st.issued.filter (fun x => x.2.1 = w)
